@@ -86,6 +86,16 @@ pub struct RunState {
     pub next_token: u64,
     pub emit_logs: bool,
     pub log_ctr: u64,
+    pub deferred: Vec<Deferred>,
+}
+
+/// A log emission postponed until the scheduler fires it: emitted inside a clone
+/// of the emitting callback's span after the callback has returned.
+pub struct Deferred {
+    #[cfg(feature = "tracing")]
+    pub span: tracing::Span,
+    pub owner: usize,
+    pub n: u8,
 }
 
 thread_local! {
@@ -274,6 +284,29 @@ fn emit_logs(idx: usize, n: u8) {
 #[cfg(not(feature = "tracing"))]
 fn emit_logs(_: usize, _: u8) {}
 
+#[cfg(feature = "tracing")]
+fn defer_logs(idx: usize, n: u8) {
+    if n > 0 && with_rs(|rs| rs.emit_logs) {
+        let span = tracing::Span::current();
+        with_rs(|rs| rs.deferred.push(Deferred { span, owner: idx, n }));
+    }
+}
+
+#[cfg(not(feature = "tracing"))]
+fn defer_logs(_: usize, _: u8) {}
+
+/// Emits the oldest postponed logs inside their span, then drops the span clone.
+pub fn fire_deferred() -> Option<usize> {
+    let d = with_rs(|rs| if rs.deferred.is_empty() { None } else { Some(rs.deferred.remove(0)) })?;
+    #[cfg(feature = "tracing")]
+    {
+        let entered = d.span.enter();
+        emit_logs(d.owner, d.n);
+        drop(entered);
+    }
+    Some(d.owner)
+}
+
 async fn body(idx: usize, b: Behav) {
     emit_logs(idx, b.logs_before);
     for _ in 0..b.gates_before {
@@ -289,6 +322,7 @@ async fn body(idx: usize, b: Behav) {
         gate(idx).await;
     }
     emit_logs(idx, b.logs_after.min(1));
+    defer_logs(idx, b.deferred_logs);
     cb_exit(idx, CbOutcome::Pass);
 }
 
